@@ -51,10 +51,15 @@ def quiet_logger():
     return Logger(level="ERROR")
 
 
-def make_pipeline(nodes: list[dict], *, trace=None, executor=None):
+def make_orchestrator(executor=None):
+    from .executor import RecordingExecutor, SvOrchestrator
+    return SvOrchestrator(executor or RecordingExecutor())
+
+
+def make_pipeline(nodes: list[dict], *, trace=None, executor=None, orchestrator=None):
     from semantiva import Pipeline
-    from .executor import RecordingExecutor, SvOrchestrator, SvTransport
-    orch = SvOrchestrator(executor or RecordingExecutor())
+    from .executor import SvTransport
+    orch = orchestrator if orchestrator is not None else make_orchestrator(executor)
     return Pipeline(copy.deepcopy(nodes), logger=quiet_logger(), orchestrator=orch, trace=trace, transport=SvTransport())
 
 
@@ -91,7 +96,7 @@ def outcome_of(fn) -> dict:
     return {"ok": True, "data": _data_repr(res.data), "context": ctx_snapshot(res.context), "payload": res}
 
 
-def run_scenario(sc: dict, w, *, trace_mode="file", detail="hash", pipeline=None, name="trace", payload=None) -> dict:
+def run_scenario(sc: dict, w, *, trace_mode="file", detail="hash", pipeline=None, name="trace", payload=None, orchestrator=None) -> dict:
     """Execute one pipeline scenario in world w. Returns dict with outcome, records, pipeline."""
     w.set_faults(sc.get("faults", []))
     first_emission = len(w.emissions)
@@ -102,7 +107,7 @@ def run_scenario(sc: dict, w, *, trace_mode="file", detail="hash", pipeline=None
     trace = make_trace(trace_mode, detail, name)
     p = pipeline
     if p is None:
-        p = make_pipeline(sc["nodes"], trace=trace)
+        p = make_pipeline(sc["nodes"], trace=trace, orchestrator=orchestrator)
     else:
         p.trace = trace
     if payload is None:
